@@ -93,9 +93,15 @@ def Beliefs.conflict (b : Beliefs) (now : Nat) : Option (Nat) :=
   b.l.findSome? fun (c, x, E) =>
     if E > now && b.l.any (fun (c', x', E') => x' == x && c' != c && decide (E' > now)) then some x else none
 
-def specAlloc (before after : Store) (now : Nat) (c : Client) (req : Option Nat) (pool : List Nat)
+/-- the client was told (in this history) that it holds `x` until some instant after `now` -/
+def Beliefs.holds (b : Beliefs) (now : Nat) (c : Client) (x : Nat) : Bool :=
+  b.l.any fun (c', x', E) => c' == c && x' == x && decide (E > now)
+
+def specAlloc (bel : Beliefs) (before after : Store) (now : Nat) (c : Client) (req : Option Nat) (pool : List Nat)
     (lo hi : Nat) (res : Res) : List String :=
-  let A := pool.filter (heldByB before now c)
+  -- what the client holds in this pool: by the server's record, or by what the server told it earlier (on a correct
+  -- server the second is contained in the first, `C01_belief_backed`)
+  let A := pool.filter fun x => heldByB before now c x || bel.holds now c x
   match res with
   | .ok x _ L =>
     let keep :=
@@ -109,7 +115,8 @@ def specAlloc (before after : Store) (now : Nat) (c : Client) (req : Option Nat)
     let bounds := if lo ≤ hi && !(lo ≤ L && L ≤ hi) then [s!"unsat:C10.bounds:{if L < lo then "below-min" else "above-max"}"] else []
     let record := match rowOf after x with
       | some r =>
-        (if r.client != c then ["unsat:C10.record:row-not-owned"] else []) ++
+        (if r.client != c then ["unsat:C10.record:row-not-owned", "unsat:C09.binding_recorded_for_client:row-not-owned",
+                                "unsat:C01.belief_backed:row-not-owned"] else []) ++
         (if r.expiry - r.start != L || r.expiry < r.start then ["unsat:C10.record:duration-differs"] else []) ++
         (if r.start < now then ["unsat:C10.record:start-before-request"] else []) ++
         (if r.expiry < now + L then ["unsat:C10.record:expires-early"] else [])
@@ -121,7 +128,7 @@ def specAlloc (before after : Store) (now : Nat) (c : Client) (req : Option Nat)
     let unchanged := if sortRows after == sortRows before then [] else ["unsat:C13.no_reply_no_change:error-changed-store"]
     let refusal :=
       if k == "NoAssignableAddress" then
-        match pool.find? (fun x => !(match rowOf before x with
+        match pool.find? (fun x => bel.holds now c x || !(match rowOf before x with
                                       | some r => r.client != c && decide (r.expiry > now)
                                       | none => false)) with
         | some x =>
@@ -170,7 +177,7 @@ def stepAcc (acc : Acc) (op : Op) (res : Res) (rowsAfter : Store) : Acc :=
     | .alloc c req pool lo hi opts =>
       let now := m.now
       let now' := m.now + m.step
-      let spec := specAlloc acc.implRows rowsAfter now c req pool lo hi res
+      let spec := specAlloc acc.beliefs acc.implRows rowsAfter now c req pool lo hi res
       let (m', corrWhy) : MState × Option String := match res with
         | .ok x _ L =>
           match typeOK m c req pool res with
